@@ -18,11 +18,12 @@ T = 6000000000
 INITIAL_BP = ['!', 'wl_surface']
 COMMANDS = ['resume', 'quit', 'help', 'list', 'breakpoint wl_surface', 'breakpoint !', 'connection A', 'connection all',
             'filter wl_pointer', 'breakpoint ! .motion', 'r', 'q', 'connection B', 'connection Z', 'breakpoint [', 'filter *',
-            'breakpoint (wl_seat)', 'breakpoint ("wl_seat")', 'breakpoint B: .commit', 'breakpoint B: wl_surface']
+            'breakpoint (wl_seat)', 'breakpoint ("wl_seat")', 'breakpoint B: .commit', 'breakpoint B: wl_surface', 'breakpoint *', 'breakpoint wl_*_surface', 'c B']
 CMD_REF = {'breakpoint wl_surface': ('wl_surface', ['wl_surface'], []), 'breakpoint !': ('!', 'NONE', None),
            'breakpoint ! .motion': ('! .motion', [], ['.motion']),
            'breakpoint B: .commit': ('B: .commit', ['B: .commit'], []),
-           'breakpoint B: wl_surface': ('B: wl_surface', ['B: wl_surface'], []),      # connection names are capitals: the text is case sensitive
+           'breakpoint B: wl_surface': ('B: wl_surface', ['B: wl_surface'], []),
+           'breakpoint *': ('*', ['*'], []), 'breakpoint wl_*_surface': ('wl_*_surface', ['wl_*_surface'], []),      # connection names are capitals: the text is case sensitive
            # two patterns that print alike (string arguments are printed without quotes) but mean different things
            'breakpoint (wl_seat)': ('(wl_seat)', ['(wl_seat)'], []), 'breakpoint ("wl_seat")': ('("wl_seat")', ['("wl_seat")'], [])}
 MSG_KINDS = ['commit', 'motion', 'enter', 'name', 'orphan']
@@ -203,7 +204,7 @@ def run_hist(init_bp, hist, check_from=0):
                     ref.bp.step(CMD_REF[text])
                 elif text == 'connection all':
                     ref.selection = None
-                elif text in ('connection A', 'connection B'):
+                elif text in ('connection A', 'connection B', 'c B'):      # `c` is the unique abbreviation of `connection`
                     ref.selection = text.split()[-1]
                 elif text == 'filter wl_pointer':
                     ref.filter = 'wl_pointer'
